@@ -1,12 +1,138 @@
 import HcipyVerif.Model.Proto
+import HcipyVerif.Model.Aperture
 
-/-! Line-protocol front end of the C12 model (stub: not built yet). -/
+/-!
+Line-protocol front end of the C12 model.
+
+```
+C12 eval  sep|pts <tol> <xs> <ys> <shape…>   →  ok <values> <near flags> <path==pointwise 0/1>
+C12 super <nx> <ny> <tol> <xs> <ys> <shape…> →  ok <means> <near flags>   |  err index
+```
+`sep`: `xs`, `ys` are the axes of a separated grid (the fast code path is run);
+`pts`: `xs`, `ys` are the coordinate arrays of an unstructured grid (the slow path is run).
+Shapes are written in prefix notation:
+`circle r cx cy | ellipse cM sM cm sm cx cy mn | rect hx hy cx cy | regpoly even r a [c0,s0,…] cx cy |
+ irrpoly [x0,y0,…] hx hy bx by | spider sx sy c s hl hw | spiderinf px py c s hw | const v |
+ compl S | mul S S | sub S S | rot c s S | shift dx dy S | seg [px,py,t,…] S`
+-/
 namespace HcipyVerif.Driver.C12
+open HcipyVerif.Proto HcipyVerif.Aperture
 
 structure St where
   dummy : Unit := ()
 
+def pairs? : List Rat → Option (List (Rat × Rat))
+  | [] => some []
+  | a :: b :: t => (pairs? t).map ((a, b) :: ·)
+  | _ => none
+
+def triples? : List Rat → Option (List (Pt × Rat))
+  | [] => some []
+  | a :: b :: c :: t => (triples? t).map (((a, b), c) :: ·)
+  | _ => none
+
+def rats? (toks : List String) (n : Nat) : Option (List Rat × List String) :=
+  if toks.length < n then none else
+    ((toks.take n).mapM parseRat?).map fun l => (l, toks.drop n)
+
+def parseShape? : Nat → List String → Option (Shape × List String)
+  | 0, _ => none
+  | fuel + 1, tok :: rest =>
+    match tok with
+    | "circle" => do
+      let ([r, cx, cy], rest) ← rats? rest 3 | none
+      pure (.circle r cx cy, rest)
+    | "ellipse" => do
+      let ([a, b, c, d, cx, cy, mn], rest) ← rats? rest 7 | none
+      pure (.ellipse a b c d cx cy mn, rest)
+    | "rect" => do
+      let ([hx, hy, cx, cy], rest) ← rats? rest 4 | none
+      pure (.rect hx hy cx cy, rest)
+    | "regpoly" =>
+      match rest with
+      | ev :: r :: a :: dirs :: cx :: cy :: rest => do
+        let ev ← (if ev == "1" then some true else if ev == "0" then some false else none)
+        let r ← parseRat? r; let a ← parseRat? a
+        let dirs ← (parseRatList? dirs).bind pairs?
+        let cx ← parseRat? cx; let cy ← parseRat? cy
+        pure (.regpoly ev r a dirs cx cy, rest)
+      | _ => none
+    | "irrpoly" =>
+      match rest with
+      | vs :: rest => do
+        let vs ← (parseRatList? vs).bind pairs?
+        let ([hx, hy, bx, by_], rest) ← rats? rest 4 | none
+        pure (.irrpoly vs hx hy bx by_, rest)
+      | _ => none
+    | "spider" => do
+      let ([sx, sy, c, s, hl, hw], rest) ← rats? rest 6 | none
+      pure (.spider sx sy c s hl hw, rest)
+    | "spiderinf" => do
+      let ([px, py, c, s, hw], rest) ← rats? rest 5 | none
+      pure (.spiderInf px py c s hw, rest)
+    | "const" => do
+      let ([v], rest) ← rats? rest 1 | none
+      pure (.const v, rest)
+    | "compl" => do
+      let (a, rest) ← parseShape? fuel rest
+      pure (.compl a, rest)
+    | "mul" => do
+      let (a, rest) ← parseShape? fuel rest
+      let (b, rest) ← parseShape? fuel rest
+      pure (.mul a b, rest)
+    | "sub" => do
+      let (a, rest) ← parseShape? fuel rest
+      let (b, rest) ← parseShape? fuel rest
+      pure (.sub a b, rest)
+    | "rot" => do
+      let ([c, s], rest) ← rats? rest 2 | none
+      let (a, rest) ← parseShape? fuel rest
+      pure (.rot c s a, rest)
+    | "shift" => do
+      let ([dx, dy], rest) ← rats? rest 2 | none
+      let (a, rest) ← parseShape? fuel rest
+      pure (.shift dx dy a, rest)
+    | "seg" =>
+      match rest with
+      | l :: rest => do
+        let segs ← (parseRatList? l).bind triples?
+        let (a, rest) ← parseShape? fuel rest
+        pure (.seg segs a, rest)
+      | _ => none
+    | _ => none
+  | _, [] => none
+
+def parseWhole? (toks : List String) : Option Shape :=
+  match parseShape? 1000 toks with
+  | some (s, []) => some s
+  | _ => none
+
 def step (st : St) : List String → St × String
+  | "eval" :: mode :: tol :: xs :: ys :: shape =>
+    match parseRat? tol, parseRatList? xs, parseRatList? ys, parseWhole? shape with
+    | some tol, some xs, some ys, some s =>
+      if mode == "sep" then
+        let pts := sepPoints xs ys
+        let vals := evalSep s xs ys
+        (st, s!"ok {showRatList vals} {showList showBool (pts.map (near tol s))} {showBool (vals == pts.map (val s))}")
+      else if mode == "pts" then
+        if xs.length != ys.length then (st, "bad-op") else
+        let pts := xs.zip ys
+        let vals := evalPts s pts
+        (st, s!"ok {showRatList vals} {showList showBool (pts.map (near tol s))} {showBool (vals == pts.map (val s))}")
+      else (st, "bad-op")
+    | _, _, _, _ => (st, "bad-op")
+  | "super" :: nx :: ny :: tol :: xs :: ys :: shape =>
+    match parseNat? nx, parseNat? ny, parseRat? tol, parseRatList? xs, parseRatList? ys, parseWhole? shape with
+    | some nx, some ny, some tol, some xs, some ys, some s =>
+      match ditherGrids nx ny xs ys, supersampled s nx ny xs ys with
+      | some gs, some vals =>
+        -- a pixel is flagged when any of its sub-samples is near a decision boundary
+        let flags := gs.foldl (fun acc g => List.zipWith (fun a b => a || b) acc ((sepPoints g.1 g.2).map (near tol s)))
+          (List.replicate (xs.length * ys.length) false)
+        (st, s!"ok {showRatList vals} {showList showBool flags}")
+      | _, _ => (st, "err index")
+    | _, _, _, _, _, _ => (st, "bad-op")
   | _ => (st, "bad-op")
 
 end HcipyVerif.Driver.C12
